@@ -21,9 +21,11 @@ def run(run, model):
     from . import fwd
     run.do(fwd.forwarding, model, "C07.forwarded", ("condition", "description", "location", "error"))
     run.do(rec.lambda_location, model)
+    run.do(rec.all_trace, model, "C07.all-trace")
     run.minimum("C07.lazy", 14)
     run.minimum("C07.supported-forms", 22)
     run.minimum("C07.assembly", 24)
     run.minimum("C07.text", 3)
     run.minimum("C07.layout-regex", 2)
     run.minimum("C07.no-swallow", 3)
+    run.minimum("C07.all-trace", 2)
